@@ -66,6 +66,29 @@ def host_spec(host, ret_refs):
 _shared_parser = None
 
 
+def _materialize(v, memo):
+    """Host values that cannot travel to a worker process pickled are written as {'__verif_make__': kind} and made here
+    (sharing between containers is preserved)."""
+    if id(v) in memo:
+        return memo[id(v)]
+    if isinstance(v, dict) and set(v) == {'__verif_make__'}:
+        import threading
+        return threading.Lock() if v['__verif_make__'] == 'lock' else (x for x in [1, 2])
+    if type(v) is dict:
+        out = memo[id(v)] = v
+        for k in list(v):
+            v[k] = _materialize(v[k], memo)
+        return out
+    if type(v) is list:
+        memo[id(v)] = v
+        for i in range(len(v)):
+            v[i] = _materialize(v[i], memo)
+        return v
+    if type(v) is tuple:
+        return tuple(_materialize(x, memo) for x in v)
+    return v
+
+
 def run_scenario(scn, tid, parser_factory=None, fresh=None):
     """Execute one scenario; return the case record for TLC.  By default one SqParser per
     process is shared by all scenarios (constructing one costs 0.1-0.2 s because PLY rebuilds
@@ -88,6 +111,7 @@ def run_scenario(scn, tid, parser_factory=None, fresh=None):
     hostfns = {k: make_host(k, b, conv) for k, b in host.items()}
     names_py = []
     for d in scn.get('names', []):
+        d = _materialize(d, {})
         rn = RecordingNames(d)
         names_py.append(rn)
     # initial projection BEFORE host functions are added (they are scalars anyway)
